@@ -45,7 +45,8 @@ def aligned(dna, spec, rec, what, base, tr):
       vb = ref.to_dict(key_type='dna_spec', value_type='dna')
       same = list(va.keys()) == list(vb.keys()) and all(k1 is k2 for k1, k2 in zip(va.keys(), vb.keys())) \
           and all(_eqv(va[k], vb[k]) for k in va)
-      if not same or dna.to_dict() != ref.to_dict() or dna.to_json() != ref.to_json() \
+      if not same or dna.to_dict() != ref.to_dict() \
+          or dna.to_json(compact=True, type_info=False) != ref.to_json(compact=True, type_info=False) \
           or dna.to_dict(value_type='literal') != ref.to_dict(value_type='literal'):
         rec.viol(f'views-differ-from-rebuilt/{what}/{base}', f'{what}: exported views of {dna!r} differ from those of a '
                  f'DNA rebuilt from its numbers: {dna.to_dict()!r} vs {ref.to_dict()!r}', tr)
